@@ -207,7 +207,7 @@ async fn step(c: usize, cop: Cop) {
             let Some(ent) = take(h) else { return };
             let HEnt { hid, aid, h: hh, spent } = ent;
             match hh {
-                H::Addr(any) if spent => put_back(h, HEnt { hid, aid, h: H::Addr(any), spent }),
+                H::Addr(any) if spent && !world(|w| w.allow_respent) => put_back(h, HEnt { hid, aid, h: H::Addr(any), spent }),
                 H::Addr(mut any) => {
                     if by_ref {
                         let o = op(c, hid, ev::K_AWAIT_REF);
@@ -329,6 +329,22 @@ async fn step(c: usize, cop: Cop) {
                 AnyJoin::T2(f) => f.await.map(|a| a.log),
             };
             state_ret(o, st);
+        }
+        Cop::PollJoin { j } => {
+            let Some((jid, mut jf)) = world(|w| w.joins.get_mut(j).and_then(|s| s.take())) else { return };
+            let o = op(c, jid, ev::K_JOIN);
+            let st = match &mut jf {
+                AnyJoin::T0(f) => futures::poll!(f).map(|r| r.map(|a| a.log)),
+                AnyJoin::T1(f) => futures::poll!(f).map(|r| r.map(|a| a.log)),
+                AnyJoin::T2(f) => futures::poll!(f).map(|r| r.map(|a| a.log)),
+            };
+            match st {
+                std::task::Poll::Ready(st) => state_ret(o, st),
+                std::task::Poll::Pending => {
+                    // stays pending: the future is put back, its operation never returns
+                    world(|w| w.joins[j] = Some((jid, jf)));
+                }
+            }
         }
         Cop::DropJoin { j } => {
             if let Some((jid, jf)) = world(|w| w.joins.get_mut(j).and_then(|s| s.take())) {
